@@ -355,53 +355,61 @@ def random_bound(rng, world, kind_hint):
     return dict(set=False, x=0), -1, 'unset'
 
 
+def random_event(world, grid, esub, eid, run_model):
+    """One random deck / haze event on a built world, fully determined by the sub-seed esub."""
+    rng = random.Random(esub)
+    n = world.n
+    lev_pos = [lpos(p) for p in world.levels]
+    cen2 = [2 * lpos(p) for p in world.layers]
+    recipe = dict(random=True, n=n, grid=grid, esub=esub, run_model=run_model)
+    r = rng.random()
+    if r < 0.25:
+        q = rng.random()
+        if q < 0.35:
+            p = float(world.layers[rng.randrange(n)]); dc = 'on-layer-pressure'
+        elif q < 0.5:
+            p = float(world.layers[0]) * 10.0 ** rng.uniform(0.01, 2.0); dc = 'below-surface'
+        elif q < 0.65:
+            p = float(world.layers[-1]) * 10.0 ** (-rng.uniform(0.01, 2.0)); dc = 'above-top'
+        else:
+            dc = 'inside'
+            for _ in range(50):
+                p = 10.0 ** rng.uniform(math.log10(world.layers[-1]), math.log10(world.layers[0]))
+                if all(abs(2 * lpos(p) - c) > 400 for c in cen2):
+                    break
+        e, info = deck_event(world, eid, cen2, lpos(p), p, run_model and rng.random() < 0.5)
+        return e, 'deck:%s:%s' % (grid, dc), recipe, info
+    kind = 'flat' if r < 0.65 else 'lee'
+    b, pb, cb = random_bound(rng, world, kind)
+    t, pt, ct = random_bound(rng, world, kind)
+    par = dict(mix=10.0 ** rng.uniform(-30, -24)) if kind == 'flat' else \
+        dict(a=10.0 ** rng.uniform(-2, 0.5), q=rng.uniform(1.0, 80.0), mix=10.0 ** rng.uniform(-14, -10))
+    e, info, sigma, mag = haze_event(world, eid, kind, lev_pos, b, t, pb, pt, par, run_model and rng.random() < 0.3)
+    inv = b['set'] and t['set'] and b['x'] < t['x']
+    cls = '%s:%s:b=%s:t=%s%s' % (kind, grid, cb, ct, ':inverted' if inv else '')
+    return e, cls, recipe, info
+
+
 def run_random(ctx, X, rng, nworlds, per_world, model_max_n):
-    events, meta, post = [], {}, []
+    events, meta = [], {}
     nw = skipped = 0
     sizes = [2, 3, 5, 100] + [rng.randint(2, 100) for _ in range(nworlds - 4)]
     for n in sizes:
-        world, grid = random_world(X, rng, n)
+        wsub = rng.getrandbits(48)
+        world, grid = random_world(X, random.Random(wsub), n)
         if world is None:
             skipped += 1
             continue
-        nw += 1
         lev_pos = [lpos(p) for p in world.levels]
-        cen2 = [2 * lpos(p) for p in world.layers]
         if any(lev_pos[k + 1] >= lev_pos[k] for k in range(n)):
             skipped += 1
             continue
-        run_model = n <= model_max_n
+        nw += 1
         for j in range(per_world):
             eid = 'B%d:%d' % (nw, j)
-            r = rng.random()
-            if r < 0.25:
-                q = rng.random()
-                if q < 0.35:
-                    p = float(world.layers[rng.randrange(n)]); dc = 'on-layer-pressure'
-                elif q < 0.5:
-                    p = float(world.layers[0]) * 10.0 ** rng.uniform(0.01, 2.0); dc = 'below-surface'
-                elif q < 0.65:
-                    p = float(world.layers[-1]) * 10.0 ** (-rng.uniform(0.01, 2.0)); dc = 'above-top'
-                else:
-                    dc = 'inside'
-                    for _ in range(50):
-                        p = 10.0 ** rng.uniform(math.log10(world.layers[-1]), math.log10(world.layers[0]))
-                        if all(abs(2 * lpos(p) - c) > 400 for c in cen2):
-                            break
-                e, info = deck_event(world, eid, cen2, lpos(p), p, run_model and rng.random() < 0.5)
-                meta[eid] = ('deck:%s:%s' % (grid, dc), dict(random=True, n=n, grid=grid), info)
-                events.append(e)
-            else:
-                kind = 'flat' if r < 0.65 else 'lee'
-                b, pb, cb = random_bound(rng, world, kind)
-                t, pt, ct = random_bound(rng, world, kind)
-                par = dict(mix=10.0 ** rng.uniform(-30, -24)) if kind == 'flat' else \
-                    dict(a=10.0 ** rng.uniform(-2, 0.5), q=rng.uniform(1.0, 80.0), mix=10.0 ** rng.uniform(-14, -10))
-                e, info, sigma, mag = haze_event(world, eid, kind, lev_pos, b, t, pb, pt, par, run_model and rng.random() < 0.3)
-                inv = b['set'] and t['set'] and b['x'] < t['x']
-                cls = '%s:%s:b=%s:t=%s%s' % (kind, grid, cb, ct, ':inverted' if inv else '')
-                meta[eid] = (cls, dict(random=True, n=n, grid=grid), info)
-                events.append(e)
+            e, cls, recipe, info = random_event(world, grid, rng.getrandbits(48), eid, n <= model_max_n)
+            meta[eid] = (cls, dict(recipe, wsub=wsub), info)
+            events.append(e)
     if nw < 5:
         raise Machinery('too few random grids')
     badids = judge(ctx, events, meta, 'random')
@@ -420,9 +428,17 @@ def _outside_layers(e):
     return [k for k in range(len(lev) - 1) if lev[k] < lo or lev[k + 1] > hi]
 
 
+def _inside_layers(e):
+    lev = e['lev']
+    be = e['b']['x'] if e['b']['set'] else lev[0]
+    te = e['t']['x'] if e['t']['set'] else lev[-1]
+    lo, hi = min(be, te), max(be, te)
+    return [k for k in range(len(lev) - 1) if lo <= lev[k + 1] and lev[k] <= hi]
+
+
 def run_canaries(events, badids):
     good = [e for e in events if e['id'] not in badids]
-    hz = [e for e in good if e['ev'] == 'haze' and not e['raised'] and any(m >= S - 1 for m in e['ms'][0]) and _outside_layers(e)]
+    hz = [e for e in good if e['ev'] == 'haze' and not e['raised'] and any(m >= S - 1 for m in e['ms'][0]) and _outside_layers(e) and _inside_layers(e)]
     dk = [e for e in good if e['ev'] == 'deck' and e['model'] and 'inf' in e['sig'] and 'zero' in e['sig']]
     if (not hz or not dk) and not badids:
         raise Machinery('no events available for the canaries')
@@ -434,7 +450,7 @@ def run_canaries(events, badids):
             r[k] = 5
         a['id'] = 'canary-leak'; can.append(a); want.append('canary-leak')
         b = dict(hz[-1]); b['ms'] = [list(r) for r in b['ms']]
-        k = max(range(len(b['ms'][0])), key=lambda i: b['ms'][0][i])
+        k = _inside_layers(b)[0]
         for r in b['ms']:
             r[k] = r[k] // 2
         b['id'] = 'canary-half'; can.append(b); want.append('canary-half')
@@ -482,29 +498,44 @@ def run(ctx):
 
 
 def replay(ctx, violations):
+    """Re-drive the real code on each stored vector / random recipe and judge the fresh events (one TLC run)."""
     X = setup()
-    for v in violations:
+    cache, worlds = {}, {}
+    items = []
+    for i, v in enumerate(violations):
         vec = v['vector']
-        e = vec.get('event')
-        if e is None:
+        old = vec.get('event')
+        if old is None:
             continue
-        if not vec.get('random'):
-            rng = random.Random(0)
+        eid = 'R%d' % i
+        base_cls = v['cls'].split(':exact-zero')[0].split(':1e-12')[0]
+        if vec.get('random'):
+            key = (vec['wsub'], vec['n'])
+            if key not in worlds:
+                worlds[key] = random_world(X, random.Random(vec['wsub']), vec['n'])
+            world, grid = worlds[key]
+            e, cls, recipe, info = random_event(world, grid, vec['esub'], eid, vec['run_model'])
+        else:
             base = {k: vec[k] for k in vec if k not in ('event', 'pclass')}
-            # re-drive the real code on the stored vector
-            cache = {}
             world = world_for_grid(X, base['lev'], vec['pclass'], cache)
             pos2p = pos2p_factory(world, base['lev'])
             if base['kind'] == 'deck':
                 n = len(base['lev']) - 1
                 cen2 = [base['lev'][k] + base['lev'][k + 1] for k in range(n)]
-                e2, info = deck_event(world, e['id'], cen2, base['deck'], pos2p(base['deck']), True)
+                e, info = deck_event(world, eid, cen2, base['deck'], pos2p(base['deck']), True)
             else:
                 pars = dict(flat=dict(mix=3.0e-27), lee=dict(a=0.7, q=40.0, mix=2.0e-12))
-                e2, info, sigma, mag = haze_event(world, e['id'], base['kind'], base['lev'], base['b'], base['t'],
-                                                  bound_value(base['b'], pos2p), bound_value(base['t'], pos2p), pars[base['kind']], True)
-                exact_checks(ctx, e2, base['adm'], sigma, mag, v['cls'].split(':exact')[0].split(':1e-12')[0], vec)
-            e = e2
-        ok, bad, _ = validate_trace('Trace_Clouds', 'Trace_Clouds.cfg', [e])
-        why = set(bad[0]['why']) if bad else set()
-        ctx.verdict(v['clause'], v['clause'] not in why, cls=v['cls'], detail='replay: TLC says %s' % sorted(why), vector=vec)
+                e, info, sigma, mag = haze_event(world, eid, base['kind'], base['lev'], base['b'], base['t'],
+                                                 bound_value(base['b'], pos2p), bound_value(base['t'], pos2p), pars[base['kind']], True)
+                if v['cls'] != base_cls:
+                    exact_checks(ctx, e, base['adm'], sigma, mag, base_cls, vec)
+                    continue
+        items.append((v, e, base_cls))
+    if not items:
+        return
+    ok, bad, _ = validate_trace('Trace_Clouds', 'Trace_Clouds.cfg', [e for _, e, _ in items])
+    badids = {b['id']: set(b['why']) for b in bad}
+    for v, e, cls in items:
+        why = badids.get(e['id'], set())
+        ctx.verdict(v['clause'], v['clause'] not in why, cls=cls, detail='replay: TLC says %s' % sorted(why),
+                    vector=dict(v['vector'], event=e))
